@@ -417,8 +417,8 @@ func spellAll(ts []sTok, p sPol) []byte {
 	return out
 }
 
-func ip(i int) *int    { return &i }
-func bp(b bool) *bool  { return &b }
+func ip(i int) *int   { return &i }
+func bp(b bool) *bool { return &b }
 func balanced(b []byte) bool {
 	d := 0
 	for _, c := range b {
